@@ -278,6 +278,7 @@ func runC13(c *kit.Ctx) {
 	// ---- R7 -----------------------------------------------------------------
 	c.StartRule("R7", "every retry cycle passes the context-watching back-off wait (shared with C17.R3)", 6)
 	retryLoopsWait(c)
+	lookupContexts(c)
 
 	// ---- R2 -----------------------------------------------------------------
 	c.StartRule("R2", "waits for a call's result also watch that call's own context", 2)
